@@ -537,7 +537,7 @@ func c05Exhaustive(c *core.C, chunk int) {
 
 func c05RandomCount(tier string) int {
 	if tier == "thorough" {
-		return 6000
+		return 30000
 	}
 	return 600
 }
